@@ -151,3 +151,120 @@ def rep_ok(w, s):
             cs.append(w.ne(v, 0.))
             cs.append(0 <= i < sv.size)
     return w.And(*cs)
+
+
+# --------------------------------------------------------------------------- A-models: uninterpreted pure-component models
+
+def stub_thermo(w, IDs, include_excess_energies=False, root_stub=True):
+    """
+    Property package on the real compiled chemicals whose *pure-component* models
+    (H, S, Cn, V, mu, kappa, H_excess, S_excess per chemical and phase; sigma, epsilon, Hvap per chemical)
+    are uninterpreted deterministic functions of (T, P) (A-models).  The mixing rules
+    (IdealTPMixtureModel, IdealTMixtureModel, IdealEntropyModel, ...) are the real classes.
+    With root_stub the temperature solvers of the mixture are replaced by their A-root
+    contract: they return T* with  property(T*) == target  (a fresh leaf).
+    """
+    import sys
+    from thermosteam.mixture import ideal_mixture_model as imm
+    mixmod = sys.modules['thermosteam.mixture.mixture']
+    th = thermo(IDs)
+    chems = th.chemicals
+    IDs = chems.IDs
+
+    def tp_models(var, positive=False):
+        out = []
+        for ID in IDs:
+            def m(phase, T, P=None, _ID=ID):
+                return w.fn(f'{var}.{_ID}.{phase}', positive=positive)(T, P if P is not None else 0.)
+            out.append(m)
+        return out
+
+    def t_models(var, positive=False):
+        out = []
+        for ID in IDs:
+            def m(phase, T, P=None, _ID=ID):
+                return w.fn(f'{var}.{_ID}.{phase}', positive=positive)(T)
+            out.append(m)
+        return out
+
+    def single_t_models(var, positive=False):
+        out = []
+        for ID in IDs:
+            def m(T, P=None, _ID=ID):
+                return w.fn(f'{var}.{_ID}', positive=positive)(T)
+            out.append(m)
+        return out
+
+    class _StubHvap:
+        var = 'Hvap'
+        def __init__(self): self.chemicals = chems.tuple
+        def __call__(self, mol, T, P=None):
+            from thermosteam.base import SparseVector
+            if mol.__class__ is not SparseVector: mol = SparseVector(mol)
+            return sum([j * w.fn(f'Hvap.{IDs[i]}', positive=True)(T) for i, j in mol.dct.items()
+                        if not chems.tuple[i].locked_state])
+
+    base = mixmod.IdealMixture
+
+    class StubMixture(base):
+        __slots__ = ('roots',)
+
+        def _root(self, kind, value_at, target, T_guess):
+            if not root_stub:
+                raise RuntimeError('root stub disabled')
+            n = len(self.roots)
+            # A-root-stay: the start value is returned when it already satisfies the equation
+            if bool(w.eq(value_at(T_guess), target)) if not w.symbolic else bool(_as_symbool(w, w.eq(value_at(T_guess), target))):
+                self.roots.append(('stay', T_guess))
+                return T_guess
+            T = w.real(f'root{n}.{kind}', lo=0., lo_strict=True)
+            w.assume(w.eq(value_at(T), target))
+            self.roots.append((kind, T))
+            return T
+
+        def solve_T_at_HP(self, phase, mol, H, T_guess, P):
+            return self._root('T_at_HP', lambda T: self.H(phase, mol, T, P), H, T_guess)
+
+        def xsolve_T_at_HP(self, phase_mol, H, T_guess, P):
+            phase_mol = tuple(phase_mol)
+            return self._root('xT_at_HP', lambda T: self.xH(phase_mol, T, P), H, T_guess)
+
+        def solve_T_at_SP(self, phase, mol, S, T_guess, P):
+            return self._root('T_at_SP', lambda T: self.S(phase, mol, T, P), S, T_guess)
+
+        def xsolve_T_at_SP(self, phase_mol, S, T_guess, P):
+            phase_mol = tuple(phase_mol)
+            return self._root('xT_at_SP', lambda T: self.xS(phase_mol, T, P), S, T_guess)
+
+    mix = StubMixture(
+        Cn=imm.IdealTMixtureModel(t_models('Cn', positive=True), 'Cn'),
+        H=imm.IdealTPMixtureModel(tp_models('H'), 'H'),
+        S=imm.IdealEntropyModel(tp_models('S'), 'S'),
+        H_excess=imm.IdealTPMixtureModel(tp_models('H_excess'), 'H_excess'),
+        S_excess=imm.IdealTPMixtureModel(tp_models('S_excess'), 'S_excess'),
+        mu=imm.IdealTPMixtureModel(tp_models('mu', positive=True), 'mu'),
+        V=imm.IdealTPMixtureModel(tp_models('V', positive=True), 'V'),
+        kappa=imm.IdealTPMixtureModel(tp_models('kappa', positive=True), 'kappa'),
+        Hvap=_StubHvap(),
+        sigma=imm.SinglePhaseIdealTMixtureModel(single_t_models('sigma', positive=True), 'sigma'),
+        epsilon=imm.SinglePhaseIdealTMixtureModel(single_t_models('epsilon', positive=True), 'epsilon'),
+        MWs=chems.MW, include_excess_energies=include_excess_energies)
+    mix.roots = []
+    return tmo.Thermo(chems, mixture=mix)
+
+
+def _as_symbool(w, cond):
+    from .sym import SymBool
+    return cond if isinstance(cond, SymBool) else SymBool(cond)
+
+
+def stream_on(w, name, th, phases, T=None, P=None, **kw):
+    """Real Stream/MultiStream on the given (possibly stubbed) package with planted flows, T and P leaves."""
+    if isinstance(phases, str):
+        s = tmo.Stream(None, thermo=th, phase=phases)
+    else:
+        s = tmo.MultiStream(None, phases=tuple(phases), thermo=th)
+    leaves = plant_flows(w, s, name, **kw)
+    s.T = w.real(f'{name}.T', lo=0., lo_strict=True) if T is None else T
+    s.P = w.real(f'{name}.P', lo=0., lo_strict=True) if P is None else P
+    return s, leaves
